@@ -31,6 +31,7 @@ RULE += (" A quarter of the probes is followed by a correlation rule over the pr
 RULE += (" The pipeline has a (nested) finalizer; a third of the cases builds all its pipelines from one definition dict object.")
 RULE += (" One history in three uses rules (and a probe) that carry one and the same value text under different modifier chains (re, re|expand, expand, contains|expand, base64, plain, ...).")
 RULE += (" One history in three switches between the two output formats of the backend (each with its own format pipeline) in convert / convert_rule calls and in the probe.")
+RULE += (" Histories also create backend instances with constructor options (without user pipeline / with one that has no variables); every query shows the backend options the combined pipeline knows, so options of one instance must not appear for another.")
 ASSUMPTIONS = [
     "results are compared as strings (same code, same configuration)",
     "the internal name of an added condition is random; it never appears in the compared output",
@@ -101,7 +102,9 @@ def _mk_class(cfg):
 
     bp = ProcessingPipeline.from_dict({"transformations": [{"id": "bsuf", "type": "field_name_suffix", "suffix": "_B",
                                                             "field_name_conditions": [{"type": "include_fields", "fields": ["g", "mapped_g"]}]},
-                                                           {"id": "bst", "type": "set_state", "key": "bstate", "val": "on"}]})
+                                                           {"id": "bst", "type": "set_state", "key": "bstate", "val": "on"}],
+                                       # what the combined pipeline knows about the backend's options: each instance its own
+                                       "postprocessing": [{"type": "template", "template": "{{ query }} ##opts={% for k, v in pipeline.vars|dictsort %}{% if k.startswith('backend_') %}{{ k }}={{ v }};{% endif %}{% endfor %}"}]})
     from vf.target.correlation import correlation_attrs
     return make_backend_class(cfg, {**correlation_attrs({}), "backend_processing_pipeline": bp,
                                     "output_format_processing_pipeline": defaultdict(ProcessingPipeline, alt=ProcessingPipeline.from_dict({"transformations": [
@@ -187,6 +190,12 @@ def check_case(case: dict) -> Outcome:
                     from sigma.processing.pipeline import ProcessingPipeline
                     backends.append(K(ProcessingPipeline.from_dict(copy.deepcopy(PIPELINE2)), collect))
                     hist.append(f"b{len(backends) - 1}=new(pipeline with other vars)")
+                elif op[1] in (3, 4):
+                    # a backend instance with options of its own, without a user pipeline or with one that has no variables
+                    from sigma.processing.pipeline import ProcessingPipeline
+                    up = None if op[1] == 3 else ProcessingPipeline.from_dict({"transformations": [{"type": "field_name_suffix", "suffix": "_u"}]})
+                    backends.append(K(up, collect, opt="o%d" % len(backends), flavour="x"))
+                    hist.append(f"b{len(backends) - 1}=new({'no' if up is None else 'var-less'} user pipeline, options)")
                 else:
                     try:
                         new_p = shared_pipeline if op[1] else _mk_pipeline(definition)
@@ -223,7 +232,7 @@ def check_case(case: dict) -> Outcome:
         except Exception:  # noqa - failing conversions are part of the history
             failing = True
     # the probe runs on a backend that uses the first pipeline definition (what the fresh result is computed for)
-    first_def = [i for i, h in enumerate(["b0"] + [h for h in hist if "=new(" in h]) if "other vars" not in h]
+    first_def = [i for i, h in enumerate(["b0"] + [h for h in hist if "=new(" in h]) if "other vars" not in h and "options)" not in h]
     pb = first_def[case["probe_backend"] % len(first_def)]
     # errors collected during the history belong to the history, not to the probe
     backends[pb].errors = []
@@ -272,7 +281,7 @@ def cases(draw):
     for _ in range(draw(st.integers(0, 8))):
         k = draw(st.sampled_from(["new_backend", "init", "load", "convert_rule", "convert_rule", "convert", "convert"]))
         if k == "new_backend":
-            ops.append([k, draw(st.sampled_from([False, True, 2, 2]))])
+            ops.append([k, draw(st.sampled_from([False, True, 2, 2, 3, 4]))])
         elif k in ("init", "load"):
             ops.append([k, draw(st.integers(0, 3))])
         elif k == "convert_rule":
